@@ -173,7 +173,12 @@ pub fn op_scenario(req: &Value) -> Value {
     // at a syscall-level yield point there would hold the `Once` against every
     // other actor. (The per-thread part of `ensure_libclang_is_loaded` still
     // runs, and is interleaved, in every actor.)
-    let _ = bindgen::clang_version();
+    // Only when a scheduler will park threads: histories and free-running
+    // scenarios must see the real first-load / last-unload life cycle of the
+    // library (a main thread that holds a handle would keep it alive forever).
+    if req.get("sched").map_or(false, |s| !s.is_null()) {
+        let _ = bindgen::clang_version();
+    }
     bindgen::verif::salt::set(ju64(req, "salt").unwrap_or(0));
     if let Some(seed) = ju64(req, "hash_seed") {
         reseed_getrandom(seed);
